@@ -252,6 +252,10 @@ func c13WholeBody(t *testing.T, s *sim.Scn, o *sim.Outcome) {
 
 func c13WholeRun(t *testing.T, s *sim.Scn) *sim.Outcome {
 	o := sim.NewOutcome()
+	if s.Cfg["initfrom"] > 0 {
+		c13InitScenario(s, o)
+		return o
+	}
 	body := c13WholeBody
 	if s.Cfg["backlog"] == 1 {
 		body = c13BacklogBody
@@ -267,6 +271,17 @@ func c13WholeRun(t *testing.T, s *sim.Scn) *sim.Outcome {
 		}
 	}
 	return o
+}
+
+// c13InitDirected: every schedule (all 2^11 choice prefixes) of "first header / first data item written
+// vs. head lookup" and of "restart on a non-empty header store: three headers published vs. two head
+// lookups" on the real sync services.
+func c13InitDirected() []*sim.Scn {
+	var out []*sim.Scn
+	for kind := int64(0); kind < 3; kind++ {
+		out = append(out, &sim.Scn{Cfg: map[string]int64{"initkind": kind, "initfrom": 1, "initto": 2048}})
+	}
+	return out
 }
 
 func c13WholeGen(r *rand.Rand, tier string) *sim.Scn {
@@ -300,15 +315,15 @@ func TestC13W(t *testing.T) {
 	sim.Main(t, &sim.Check{
 		ID:          "C13",
 		Level:       "exploration",
-		Rule:        "second half (no race detector): whole node.FullNode objects - real Run incl. P2P client, header/data sync services (go-header, gossipsub), worker fan-out and the shutdown sequence - for an aggregator and 0-2 syncing full nodes over a libp2p mocknet inside the bubble; seeded stimuli, faults, latencies and stop instant; oracle: Run returns within 12 s of simulated time after the stop, post-mortem C01/C02/C06/C07 invariants on the durable images",
+		Rule:        "second half (no race detector): whole node.FullNode objects - real Run incl. P2P client, header/data sync services (go-header, gossipsub), worker fan-out and the shutdown sequence - for an aggregator and 0-2 syncing full nodes over a libp2p mocknet inside the bubble; seeded stimuli, faults, latencies and stop instant; oracle: Run returns within 12 s of simulated time after the stop, post-mortem C01/C02/C06/C07 invariants on the durable images. Directed: the real header and data sync services (go-header store, exchange server, gossip subscriber over the mocknet) receive their first item through WriteToStoreAndBroadcast while a second task looks up the store's head (what a peer's head request and gossip validation do); and, third configuration, a restarted header service on a non-empty store publishes three further headers while two tasks look up the head; all 2^11 choice prefixes of a park-and-release scheduler over the datastore operations of the tasks are run (in child processes, because the failure mode is log.Fatal) and none may end the process",
 		Assumptions: []string{"whole-node half runs without -race (the toolchain's race runtime crashes in this configuration)", "library goroutines left parked after Run returned are not judged", "the RPC/metrics HTTP servers are configured away"},
 		Components:  map[string]string{"node.FullNode.Run (start-up, worker fan-out, shutdown, cache save)": "real", "pkg/p2p, pkg/sync (go-header, gossipsub)": "real over libp2p mocknet", "block.Manager loops": "real, concurrent"},
 		Gen:         c13WholeGen,
 		Run:         c13WholeRun,
 		// directed: stop while a catching-up full node has more headers queued than the event channel holds
-		Directed: []*sim.Scn{{Cfg: map[string]int64{"backlog": 1, "blocks": 10300, "stopms": 300}}, {Cfg: map[string]int64{"backlog": 1, "blocks": 500, "stopms": 100}}},
-		Workers:     8,
-		MaxQuick:    200, MaxThorough: 2500,
+		Directed: append([]*sim.Scn{{Cfg: map[string]int64{"backlog": 1, "blocks": 10300, "stopms": 300}}, {Cfg: map[string]int64{"backlog": 1, "blocks": 500, "stopms": 100}}}, c13InitDirected()...),
+		Workers:  8,
+		MaxQuick: 200, MaxThorough: 2500,
 		ReplayAttempts: 20,
 		QuickBudget:    20 * time.Second, ThoroughBudget: 10 * time.Minute,
 	})
